@@ -1,13 +1,523 @@
+// connharness drives the real minter-connector code (command validation, resynchronisation
+// scan) against a scripted Minter node, and prints one canonical line per operation.
 package main
 
 import (
+	"bufio"
+	"encoding/json"
+	"flag"
 	"fmt"
+	"math/big"
+	"math/rand"
+	"os"
+	"path/filepath"
+	"strconv"
+	"strings"
+	"sync"
+	"syscall"
+
+	"github.com/MinterTeam/minter-go-sdk/v2/api/http_client"
+	"github.com/MinterTeam/minter-go-sdk/v2/api/http_client/client/api_service"
+	"github.com/MinterTeam/minter-go-sdk/v2/api/http_client/models"
+	"github.com/MinterTeam/minter-go-sdk/v2/transaction"
+	sdk "github.com/cosmos/cosmos-sdk/types"
+	"github.com/go-openapi/strfmt"
+	"github.com/tendermint/tendermint/libs/log"
 
 	"github.com/MinterTeam/mhub2/minter-connector/command"
-	sdk "github.com/cosmos/cosmos-sdk/types"
+	"github.com/MinterTeam/mhub2/minter-connector/config"
+	mctx "github.com/MinterTeam/mhub2/minter-connector/context"
+	"github.com/MinterTeam/mhub2/minter-connector/minter"
 )
 
+const multisig = "Mx1111111111111111111111111111111111111111"
+const otherAddr = "Mx2222222222222222222222222222222222222222"
+
+// ---------------------------------------------------------------- scripted Minter node
+
+type fakeNode struct {
+	api_service.ClientService
+	blocks []*models.BlockResponse
+}
+
+func (f *fakeNode) Status(p *api_service.StatusParams, _ ...api_service.ClientOption) (*api_service.StatusOK, error) {
+	h := uint64(0)
+	if len(f.blocks) > 0 {
+		h = f.blocks[len(f.blocks)-1].Height
+	}
+	return &api_service.StatusOK{Payload: &models.StatusResponse{LatestBlockHeight: h}}, nil
+}
+
+func (f *fakeNode) Blocks(p *api_service.BlocksParams, _ ...api_service.ClientOption) (*api_service.BlocksOK, error) {
+	var out []*models.BlockResponse
+	for _, b := range f.blocks {
+		if b.Height >= p.FromHeight && b.Height <= p.ToHeight {
+			out = append(out, b)
+		}
+	}
+	return &api_service.BlocksOK{Payload: &models.BlocksResponse{Blocks: out}}, nil
+}
+
+// tx spec from the protocol: send:<toM>:<jsonOk>:<cmdValid> | ms:<fromM> | em:<fromM>:<payload> | other
+// For `send` the concrete command is chosen so that the real ValidateAndComplete yields cmdValid.
+func (h *harness) mkTx(spec string, idx int) *models.TransactionResponse {
+	p := strings.Split(spec, ":")
+	tx := &models.TransactionResponse{Hash: fmt.Sprintf("Mt%04d", idx), From: otherAddr}
+	addr := func(b string) string {
+		if b == "1" {
+			return multisig
+		}
+		return otherAddr
+	}
+	switch p[0] {
+	case "send":
+		tx.Type = uint64(transaction.TypeSend)
+		any := models.ProtobufAny{"@type": "type.googleapis.com/api_pb.SendData", "coin": map[string]interface{}{"id": "1", "symbol": "X"}, "to": addr(p[1]), "value": "1000000"}
+		tx.Data = &any
+		switch {
+		case p[2] != "1":
+			tx.Payload = strfmt.Base64("{not json")
+		case p[3] == "1":
+			tx.Payload = strfmt.Base64(`{"type":"send_to_ethereum","recipient":"0x3333333333333333333333333333333333333333","fee":"1000"}`)
+		default:
+			bad := []string{
+				`{"type":"send_to_ethereum","recipient":"0x33","fee":"1000"}`,
+				`{"type":"send_to_mars","recipient":"0x3333333333333333333333333333333333333333","fee":"1000"}`,
+				`{"type":"send_to_bsc","recipient":"0x3333333333333333333333333333333333333333","fee":"abc"}`,
+				`{"type":"send_to_bsc","recipient":"0x3333333333333333333333333333333333333333","fee":"990000"}`,
+				`{"type":"send_to_hub","recipient":"nothub1xyz","fee":"1"}`,
+			}
+			tx.Payload = strfmt.Base64(bad[idx%len(bad)])
+		}
+	case "ms":
+		tx.Type = uint64(transaction.TypeMultisend)
+		tx.From = addr(p[1])
+		any := models.ProtobufAny{"@type": "type.googleapis.com/api_pb.MultiSendData", "list": []interface{}{}}
+		tx.Data = &any
+	case "em":
+		tx.Type = uint64(transaction.TypeEditMultisig)
+		tx.From = addr(p[1])
+		tx.Payload = strfmt.Base64(p[2])
+		any := models.ProtobufAny{"@type": "type.googleapis.com/api_pb.EditMultisigData", "threshold": "667", "weights": []interface{}{}, "addresses": []interface{}{}}
+		tx.Data = &any
+	default:
+		tx.Type = uint64(transaction.TypeDelegate)
+	}
+	return tx
+}
+
+// ---------------------------------------------------------------- harness state
+
+type cursor struct {
+	LastCheckedMinterBlock uint64 `json:"last_checked_minter_block"`
+	LastEventNonce         uint64 `json:"last_event_nonce"`
+	LastBatchNonce         uint64 `json:"last_batch_nonce"`
+	LastValsetNonce        uint64 `json:"last_valset_nonce"`
+}
+
+func (c cursor) String() string {
+	return fmt.Sprintf("(%d,%d,%d,%d)", c.LastCheckedMinterBlock, c.LastEventNonce, c.LastBatchNonce, c.LastValsetNonce)
+}
+
+type harness struct {
+	node      *fakeNode
+	persisted cursor
+	lastLog   []cursor
+	dir       string
+	txCount   int
+	specs     map[uint64][]string // height -> tx specs (for the monitor)
+	start     cursor
+	viol      []violation
+	ops       []string
+	stats     map[string]int
+}
+
+type violation struct {
+	Property string   `json:"property"`
+	Class    string   `json:"class"`
+	Detail   string   `json:"detail"`
+	History  int      `json:"history"`
+	OpIndex  int      `json:"op_index"`
+	Ops      []string `json:"ops"`
+}
+
+func newHarness(dir string) *harness {
+	return &harness{node: &fakeNode{}, persisted: cursor{0, 1, 1, 0}, start: cursor{0, 1, 1, 0}, dir: dir, specs: map[uint64][]string{}, stats: map[string]int{}}
+}
+
+// runResync runs the real GetLatestMinterBlockAndNonce from the persisted cursor, capturing every
+// Commit through a FIFO in place of the status file.
+func (h *harness) runResync(ack uint64) ([]cursor, cursor) {
+	path := filepath.Join(h.dir, fmt.Sprintf("status-%d.json", rand.Int63()))
+	client, err := http_client.New("http://127.0.0.1:1")
+	if err != nil {
+		panic(err)
+	}
+	client.ClientService = h.node
+	ctx := mctx.Context{MinterMultisigAddr: multisig, MinterClient: client, Logger: log.NewNopLogger()}
+	ctx.LoadStatus(path, config.MinterConfig{StartBlock: h.persisted.LastCheckedMinterBlock, StartEventNonce: h.persisted.LastEventNonce,
+		StartBatchNonce: h.persisted.LastBatchNonce, StartValsetNonce: h.persisted.LastValsetNonce})
+	if err := syscall.Mkfifo(path, 0o600); err != nil {
+		panic(err)
+	}
+	defer os.Remove(path)
+	var log []cursor
+	var mu sync.Mutex
+	done := make(chan struct{})
+	stop := make(chan struct{})
+	go func() {
+		defer close(done)
+		for {
+			f, err := os.OpenFile(path, os.O_RDONLY, 0)
+			if err != nil {
+				return
+			}
+			data, _ := readAll(f)
+			f.Close()
+			if string(data) == "STOP" {
+				return
+			}
+			var c cursor
+			if json.Unmarshal(data, &c) == nil {
+				mu.Lock()
+				log = append(log, c)
+				mu.Unlock()
+			}
+			select {
+			case <-stop:
+				return
+			default:
+			}
+		}
+	}()
+	res := minter.GetLatestMinterBlockAndNonce(ctx, ack)
+	os.WriteFile(path, []byte("STOP"), 0o600)
+	<-done
+	final := cursor{res.LastCheckedMinterBlock(), res.LastEventNonce(), res.LastBatchNonce(), res.LastValsetNonce()}
+	return log, final
+}
+
+func readAll(f *os.File) ([]byte, error) {
+	var out []byte
+	buf := make([]byte, 4096)
+	for {
+		n, err := f.Read(buf)
+		out = append(out, buf[:n]...)
+		if err != nil {
+			return out, nil
+		}
+	}
+}
+
+func (h *harness) exec(line string) string {
+	w := strings.Fields(line)
+	if len(w) == 0 {
+		return ""
+	}
+	u := func(s string) uint64 { v, _ := strconv.ParseUint(s, 10, 64); return v }
+	switch w[0] {
+	case "m_reset":
+		return "ok"
+	case "m_start":
+		h.persisted = cursor{u(w[1]), u(w[2]), u(w[3]), u(w[4])}
+		h.start = h.persisted
+		return "ok"
+	case "m_block":
+		b := &models.BlockResponse{Height: u(w[1])}
+		if w[2] != "-" {
+			for _, spec := range strings.Split(w[2], ";") {
+				h.txCount++
+				b.Transactions = append(b.Transactions, h.mkTx(spec, h.txCount))
+				h.specs[b.Height] = append(h.specs[b.Height], spec)
+			}
+		}
+		h.node.blocks = append(h.node.blocks, b)
+		return "ok"
+	case "m_resync":
+		log, final := h.runResync(u(w[1]))
+		h.lastLog = log
+		if len(log) > 0 {
+			h.persisted = log[len(log)-1]
+		}
+		var l []string
+		for _, c := range log {
+			l = append(l, c.String())
+		}
+		h.monitorCommits(log)
+		return "commits " + strings.Join(l, ";") + " final " + final.String()
+	case "m_restart":
+		k := int(u(w[1]))
+		if k < len(h.lastLog) {
+			h.persisted = h.lastLog[k]
+		}
+		return "ok " + h.persisted.String()
+	case "m_cmd":
+		// m_cmd <typeKnown> <recipientOk> <fee> <amount>
+		cmd := &command.Command{Type: "send_to_ethereum", Recipient: "0x3333333333333333333333333333333333333333", Fee: w[3]}
+		if w[1] != "1" {
+			cmd.Type = "send_to_mars"
+		}
+		if w[2] != "1" {
+			cmd.Recipient = "0x33"
+		}
+		amt, _ := new(big.Int).SetString(w[4], 10)
+		err := cmd.ValidateAndComplete(sdk.NewIntFromBigInt(amt))
+		h.monitorCmd(w, err == nil)
+		if err == nil {
+			return "valid"
+		}
+		return "invalid"
+	}
+	return "bad-op"
+}
+
+// ---------------------------------------------------------------- monitor (property C20)
+
+func (h *harness) counts(spec string) bool {
+	p := strings.Split(spec, ":")
+	switch p[0] {
+	case "send":
+		return p[1] == "1" && p[2] == "1" && p[3] == "1"
+	case "ms":
+		return p[1] == "1"
+	case "em":
+		_, err := strconv.Atoi(p[2])
+		return p[1] == "1" && err == nil
+	}
+	return false
+}
+
+func (h *harness) report(class, detail string) {
+	for _, v := range h.viol {
+		if v.Class == class {
+			return
+		}
+	}
+	h.viol = append(h.viol, violation{Property: "C20", Class: class, Detail: detail, OpIndex: len(h.ops) - 1})
+}
+
+func (h *harness) monitorCommits(log []cursor) {
+	for _, c := range log {
+		n := h.start.LastEventNonce
+		for _, b := range h.node.blocks {
+			if b.Height > h.start.LastCheckedMinterBlock && b.Height <= c.LastCheckedMinterBlock {
+				for _, s := range h.specs[b.Height] {
+					if h.counts(s) {
+						n++
+					}
+				}
+			}
+		}
+		if c.LastEventNonce != n {
+			// is it the known mid-block early return? the block after lastChecked holds >= 2 bridge events
+			k := 0
+			for _, s := range h.specs[c.LastCheckedMinterBlock+1] {
+				if h.counts(s) {
+					k++
+				}
+			}
+			cls := "persisted-cursor-inconsistent"
+			if k >= 2 && c.LastEventNonce > n && c.LastEventNonce < n+uint64(k) {
+				cls = "early-return-inside-a-block-keeps-counted-events"
+			}
+			h.report(cls, fmt.Sprintf("persisted %s but start nonce %d + bridge events up to block %d = %d", c, h.start.LastEventNonce, c.LastCheckedMinterBlock, n))
+		}
+	}
+}
+
+func (h *harness) monitorCmd(w []string, accepted bool) {
+	fee, ok := new(big.Int).SetString(w[3], 10)
+	amt, _ := new(big.Int).SetString(w[4], 10)
+	want := w[1] == "1" && w[2] == "1" && ok
+	if want {
+		lim := new(big.Int).Sub(amt, new(big.Int).Quo(amt, big.NewInt(100)))
+		want = fee.Sign() >= 0 && fee.Cmp(lim) < 0
+	}
+	if accepted != want {
+		cls := "command-validation-wrong"
+		if ok && fee.Sign() < 0 && accepted {
+			cls = "negative-fee-accepted"
+		}
+		h.report(cls, fmt.Sprintf("%v accepted=%v expected=%v", w, accepted, want))
+	}
+}
+
+// ---------------------------------------------------------------- generator
+
+func genHistory(r *rand.Rand, h *harness, nops int, do func(string) string) {
+	do("m_reset")
+	startBlock := uint64(r.Intn(3))
+	do(fmt.Sprintf("m_start %d %d %d %d", startBlock, 1+r.Intn(5), 1+r.Intn(3), r.Intn(3)))
+	height := startBlock
+	emitted := uint64(0)
+	txSpec := func() string {
+		switch r.Intn(10) {
+		case 0, 1, 2:
+			return "send:1:1:1"
+		case 3:
+			return "send:1:1:0"
+		case 4:
+			return fmt.Sprintf("send:%d:%d:1", r.Intn(2), r.Intn(2))
+		case 5:
+			return fmt.Sprintf("ms:%d", r.Intn(4)/3^1)
+		case 6:
+			if r.Intn(3) == 0 {
+				return "em:1:x"
+			}
+			return fmt.Sprintf("em:%d:%d", r.Intn(4)/3^1, r.Intn(9))
+		default:
+			return "other"
+		}
+	}
+	for i := 0; i < nops; i++ {
+		switch x := r.Intn(100); {
+		case x < 55:
+			height++
+			n := r.Intn(5)
+			if r.Intn(3) == 0 {
+				n = 0
+			}
+			var txs []string
+			for j := 0; j < n; j++ {
+				s := txSpec()
+				txs = append(txs, s)
+				if h.counts(s) {
+					emitted++
+				}
+			}
+			if len(txs) == 0 {
+				do(fmt.Sprintf("m_block %d -", height))
+			} else {
+				do(fmt.Sprintf("m_block %d %s", height, strings.Join(txs, ";")))
+			}
+		case x < 80:
+			// the hub acknowledged some nonce between start and what exists
+			ack := uint64(0)
+			if r.Intn(5) > 0 {
+				ack = h.persisted.LastEventNonce - 1 + uint64(r.Intn(int(emitted)+2))
+				if r.Intn(4) == 0 && ack > 0 {
+					ack--
+				}
+			}
+			do(fmt.Sprintf("m_resync %d", ack))
+		case x < 88:
+			if len(h.lastLog) > 0 {
+				do(fmt.Sprintf("m_restart %d", r.Intn(len(h.lastLog))))
+			}
+		default:
+			fees := []string{"0", "1", "-5", "-1", "98", "99", "100", "990", "989", "abc", "", "1000000000000000000000"}
+			amts := []string{"100", "1000", "1", "0", "99", "101", "1000000000000000000000000"}
+			do(fmt.Sprintf("m_cmd %d %d %s %s", r.Intn(8)/7^1, r.Intn(8)/7^1, nz(fees[r.Intn(len(fees))]), amts[r.Intn(len(amts))]))
+		}
+	}
+	do("m_resync 0")
+}
+
+func nz(s string) string {
+	if s == "" {
+		return "empty"
+	}
+	return s
+}
+
 func main() {
-	c := &command.Command{Type: "send_to_ethereum", Recipient: "0x1111111111111111111111111111111111111111", Fee: "-5"}
-	fmt.Println(c.ValidateAndComplete(sdk.NewInt(100)))
+	if len(os.Args) < 2 {
+		fmt.Println("usage: connharness run|gen")
+		os.Exit(2)
+	}
+	tmp, _ := os.MkdirTemp("", "connh")
+	defer os.RemoveAll(tmp)
+	switch os.Args[1] {
+	case "run":
+		sc := bufio.NewScanner(os.Stdin)
+		h := newHarness(tmp)
+		for sc.Scan() {
+			line := strings.TrimSpace(sc.Text())
+			if line == "m_reset" {
+				h = newHarness(tmp)
+			}
+			fmt.Println(h.exec(line))
+		}
+	case "gen", "replay":
+		fs := flag.NewFlagSet("gen", flag.ExitOnError)
+		seed := fs.Int64("seed", 1, "")
+		hist := fs.Int("histories", 10, "")
+		nops := fs.Int("ops", 60, "")
+		out := fs.String("out", "", "")
+		opsFile := fs.String("ops-file", "", "replay this op file instead of generating")
+		fs.Parse(os.Args[2:])
+		os.MkdirAll(*out, 0o755)
+		var allOps, allOuts []string
+		var viol []violation
+		stats := map[string]int{}
+		nh := 0
+		runOne := func(hi int, drive func(h *harness, do func(string) string)) {
+			h := newHarness(tmp)
+			var outs []string
+			do := func(line string) string {
+				h.ops = append(h.ops, line)
+				o := h.exec(line)
+				outs = append(outs, o)
+				w := strings.Fields(line)
+				cls := "ok"
+				if strings.HasPrefix(o, "invalid") {
+					cls = "invalid"
+				}
+				stats["op:"+w[0]+":"+cls]++
+				if w[0] == "m_resync" {
+					if strings.Contains(o, "commits  final") {
+						stats["resync:no-commit"]++
+					} else {
+						stats["resync:commits"]++
+					}
+				}
+				return o
+			}
+			drive(h, do)
+			for _, v := range h.viol {
+				v.History = hi
+				v.Ops = append([]string{}, h.ops[:v.OpIndex+1]...)
+				viol = append(viol, v)
+			}
+			allOps = append(allOps, h.ops...)
+			allOuts = append(allOuts, outs...)
+			nh++
+		}
+		if *opsFile != "" {
+			data, _ := os.ReadFile(*opsFile)
+			var cur []string
+			flush := func() {
+				if len(cur) == 0 {
+					return
+				}
+				lines := cur
+				runOne(nh, func(h *harness, do func(string) string) {
+					for _, l := range lines {
+						do(l)
+					}
+				})
+				cur = nil
+			}
+			for _, l := range strings.Split(string(data), "\n") {
+				l = strings.TrimSpace(l)
+				if l == "" || strings.HasPrefix(l, "#") {
+					continue
+				}
+				if l == "m_reset" {
+					flush()
+				}
+				cur = append(cur, l)
+			}
+			flush()
+		} else {
+			for i := 0; i < *hist; i++ {
+				r := rand.New(rand.NewSource(*seed*1000003 + int64(i)))
+				runOne(i, func(h *harness, do func(string) string) { genHistory(r, h, *nops, do) })
+			}
+		}
+		os.WriteFile(filepath.Join(*out, "ops.txt"), []byte(strings.Join(allOps, "\n")+"\n"), 0o644)
+		os.WriteFile(filepath.Join(*out, "impl.txt"), []byte(strings.Join(allOuts, "\n")+"\n"), 0o644)
+		b, _ := json.MarshalIndent(map[string]interface{}{"stats": stats, "violations": viol, "histories": nh, "ops": len(allOps)}, "", " ")
+		os.WriteFile(filepath.Join(*out, "result.json"), b, 0o644)
+	}
 }
